@@ -1,1 +1,3 @@
-import Model.Rainflow.Spec
+/- C03: symmetries. -/
+import Proofs.C03Sym
+import Proofs.C02Fkm
